@@ -93,6 +93,7 @@ META_SETS = [
     (b'bytes', {'n': {'m': [1, 2.5, 'x']}}),
     (float('nan'), float('-inf')),
     (np.uint64(2 ** 63), np.array([[1.5, 2.5], [3.5, 4.5]])),
+    ('rec\udcff.wav', {'path': ['x\ud800', 'ok']}),      # lone surrogates (os.fsdecode of undecodable names)
 ]
 KEYNAMES = [{'k1': 'k1', 'k2': 'k2'}, {'k1': 'fs', 'k2': 'clé ☃'}, {'k1': 'a b', 'k2': ''}]
 
@@ -252,6 +253,8 @@ class Session:
             arr = np.ascontiguousarray(arr.T).T
         md = self.mdict(_asmap(st['refmeta']))
         self.a = self.darr.asarray(self.path, arr, accessmode=st['mode'], metadata=md or None)
+        if st.get('mmode', st['mode']) != st['mode']:
+            self.a.metadata.accessmode = st['mmode']
         self.ret = None
 
     # -- one public call
@@ -370,6 +373,9 @@ class Session:
     def do_SetMode(self, m):
         self.a.accessmode = m
 
+    def do_SetMetaMode(self, m):
+        self.a.metadata.accessmode = m
+
     def do_Reopen(self, m):
         self.a = self.darr.Array(self.path, accessmode=m)
 
@@ -465,6 +471,7 @@ class Session:
         live = {}
         try:
             live['mode'] = a.accessmode
+            live['mmode'] = a.metadata.accessmode
             live['hlen'] = len(a)
             live['shape'] = tuple(a.shape)
             live['size'] = a.size
